@@ -713,6 +713,13 @@ class MemorizedFunc(Logger):
         except (IOError, OSError):  # some backend can also raise OSError
             self._write_func_code(func_code, first_line)
             return False
+        except ValueError:
+            # func_code.py does not read back as _write_func_code wrote it (the
+            # writer was killed, or is still writing, inside the first line or
+            # inside a multi-byte character): the code the entries were computed
+            # by is unknown, treat it as changed.
+            self.clear(warn=False)
+            return False
         if old_func_code == func_code:
             return True
 
